@@ -53,9 +53,14 @@ pub open spec fn parsed_ok(p: Parsed) -> bool {
     &&& forall|i: int| 0 <= i < p.fields.len() ==> is_token((#[trigger] p.fields[i]).name) && p.fields[i].name.len() > 0 && valid_value(p.fields[i].value)
 }
 #[verifier::external_body]
-pub broadcast proof fn axiom_outcome_ok(buf: Seq<u8>, cap: nat)
-    ensures outcome_ok(#[trigger] parse_response(buf, cap), buf, cap), outcome_ok(#[trigger] parse_request(buf, cap), buf, cap)
+pub broadcast proof fn axiom_outcome_ok_response(buf: Seq<u8>, cap: nat)
+    ensures outcome_ok(#[trigger] parse_response(buf, cap), buf, cap)
 {}
+#[verifier::external_body]
+pub broadcast proof fn axiom_outcome_ok_request(buf: Seq<u8>, cap: nat)
+    ensures outcome_ok(#[trigger] parse_request(buf, cap), buf, cap)
+{}
+pub broadcast group axiom_outcome_ok { axiom_outcome_ok_response, axiom_outcome_ok_request }
 
 /// slots [0, k) hold the fields, in order
 pub open spec fn slots_hold(h: Seq<Header>, fields: Seq<PField>) -> bool {
